@@ -261,7 +261,7 @@ def parse_cmp_answer(ans: str, ntbl: int):
 # reflective copy / substitution
 # --------------------------------------------------------------------------
 
-def rebuild(root, subst: dict[int, Any] | None = None, fresh=True, share_data=True):
+def rebuild(root, subst: dict[int, Any] | None = None, fresh=True, share_data=True, post=None):
     """A structurally identical graph.  `subst` maps id(old node) -> replacement
     node (used as is).  fresh=True: every node is a new object (data wrappers are
     kept when share_data, since they compare by identity); fresh=False: only
@@ -322,6 +322,8 @@ def rebuild(root, subst: dict[int, Any] | None = None, fresh=True, share_data=Tr
                 r = dataclasses.replace(node, **ch)
             else:
                 r = node
+        if post is not None:
+            r = post(node, r)       # bottom-up hook: (original node, its copy) -> replacement
         memo[id(node)] = r
         return r
 
